@@ -530,8 +530,8 @@ fn gen_literal(r: &mut Rng, long: bool) -> String {
                     // zero-padded exponent
                     let t = format!("{f:e}");
                     match t.split_once('e') {
-                        Some((m, e)) if !e.starts_with('-') => format!("{m}e{}{e}", "0".repeat(r.range(1, 3))),
-                        Some((m, e)) => format!("{m}e-{}{}", "0".repeat(r.range(1, 3)), &e[1..]),
+                        Some((m, e)) if !e.starts_with('-') => format!("{m}e{}{e}", "0".repeat(*r.pick(&[1usize, 2, 3, 10, 37, 38, 39, 40, 41, 60, 200]))),
+                        Some((m, e)) => format!("{m}e-{}{}", "0".repeat(*r.pick(&[1usize, 2, 3, 10, 37, 38, 39, 40, 41, 60, 200])), &e[1..]),
                         None => t,
                     }
                 }
@@ -574,7 +574,7 @@ fn gen_literal(r: &mut Rng, long: bool) -> String {
                     _ => r.below(25),
                 };
                 if r.chance(1, 6) {
-                    s.push_str(&"0".repeat(r.range(1, 3)));
+                    s.push_str(&"0".repeat(*r.pick(&[1usize, 2, 3, 10, 37, 38, 39, 40, 41, 60, 200])));
                 }
                 s.push_str(&e.to_string());
             }
